@@ -25,6 +25,14 @@
 //! an optional last token `m=<len>` gives the id array a length different from `n` (malformed
 //! stream, only for the algorithms that validate lengths).
 //!
+//! The op above is the whole INPUT (public API only; this is what the corpus holds). The line
+//! RECORDED for the model driver is `<op> => <aux…>` for the three algorithms whose models take
+//! the result of floating-point code as a parameter; `aux` is read from the implementation
+//! through the read-only `coupe::verif` hooks (1-thread pool) and ignored when a line is replayed:
+//! `rib*`: the points in the frame of their oriented bounding box (`n*D` f64 bit patterns);
+//! `hilbert*`: the Hilbert indices of the points (`n` decimal `u64`);
+//! `zcurve*`: per point the `order` regions it falls in (`n` digit strings, `e` = empty).
+//!
 //! out: `ok` (every pool size: returned `Ok`, every element written, every id < parts)
 //!    | `notfound` (Ckk only: legitimate, nothing is claimed about the array)
 //!    | `rejected <why>` (input outside the contract refused: `lenmismatch`, `invalidorder`, `order-assert`)
@@ -302,8 +310,74 @@ impl<'a> Tok<'a> {
     }
 }
 
+macro_rules! points {
+    ($D:literal, $pts:expr) => {
+        $pts.chunks($D).map(|c| coupe::PointND::<$D>::from_column_slice(c)).collect::<Vec<coupe::PointND<$D>>>()
+    };
+}
+
+/// The input part of a recorded line (everything before the ` => ` marker).
+fn public_part(op: &str) -> &str {
+    match op.find(" => ") {
+        Some(i) => &op[..i],
+        None => op.strip_suffix(" =>").unwrap_or(op),
+    }
+}
+
+/// Float-derived data for the model driver, from the read-only hooks (see the module doc).
+/// `None`: not needed, nothing to export (no point), or the hook itself failed.
+fn aux_for(case: &Case) -> Option<String> {
+    let c = case.clone();
+    let r = catch_timeout(HANG_SECS, move || {
+        with_pool(1, move || match c {
+            Case::Bisect { rib: true, dim, pts, .. } => {
+                let flat: Option<Vec<f64>> = if dim == 2 {
+                    coupe::verif::geometry::obb_frame::<2>(&points!(2, pts))
+                        .map(|(m, _)| m.iter().flat_map(|p| p.iter().copied().collect::<Vec<f64>>()).collect())
+                } else {
+                    coupe::verif::geometry::obb_frame::<3>(&points!(3, pts))
+                        .map(|(m, _)| m.iter().flat_map(|p| p.iter().copied().collect::<Vec<f64>>()).collect())
+                };
+                flat.map(|f| hexes(&f))
+            }
+            Case::Hilbert { dim, order, pts, .. } => {
+                if pts.is_empty() {
+                    return None;
+                }
+                let idx = if dim == 2 {
+                    coupe::verif::hilbert::indices_2d(&points!(2, pts), order as usize)
+                } else {
+                    coupe::verif::hilbert::indices_3d(&points!(3, pts), order as usize)
+                };
+                Some(join(&idx))
+            }
+            Case::ZCurve { dim, order, pts, .. } => {
+                if pts.is_empty() {
+                    return None;
+                }
+                let codes = if dim == 2 {
+                    coupe::verif::z_curve::codes::<2>(&points!(2, pts), order)
+                } else {
+                    coupe::verif::z_curve::codes::<3>(&points!(3, pts), order)
+                };
+                let toks: Vec<String> = codes
+                    .iter()
+                    .map(|c| if c.is_empty() { "e".to_string() } else { c.iter().map(|d| char::from(b'0' + *d)).collect() })
+                    .collect();
+                Some(toks.join(" "))
+            }
+            _ => None,
+        })
+    });
+    match r {
+        Caught::Ok(v) => v,
+        _ => None,
+    }
+}
+
 /// → (case, pool sizes, length of the id array)
 fn parse_op(op: &str) -> Option<(Case, Vec<usize>, usize)> {
+    let op = public_part(op);
     let mut t = Tok(op.split_whitespace().peekable());
     let algo = t.word()?;
     let ts: Vec<usize> = t.word()?.split(',').map(|x| x.parse().ok()).collect::<Option<_>>()?;
@@ -432,12 +506,6 @@ fn to_ret(r: Result<(), coupe::Error>) -> Ret {
         Ok(()) => Ret::Ok,
         Err(e) => map_err(e),
     }
-}
-
-macro_rules! points {
-    ($D:literal, $pts:expr) => {
-        $pts.chunks($D).map(|c| coupe::PointND::<$D>::from_column_slice(c)).collect::<Vec<coupe::PointND<$D>>>()
-    };
 }
 
 macro_rules! bisect {
@@ -700,7 +768,20 @@ pub fn run_op(ctx: &mut Ctx, op: &str) {
         _ => {}
     }
     let nontrivial = ooc.is_none() && n >= 2 && parts >= 2;
-    let idx = ctx.record(op.to_string(), out, nontrivial);
+    let mut line = public_part(op).to_string();
+    if ooc.is_none() && n > 0 {
+        let needs = matches!(case, Case::Bisect { rib: true, .. } | Case::Hilbert { .. } | Case::ZCurve { .. });
+        if needs {
+            match aux_for(&case) {
+                Some(aux) => {
+                    line.push_str(" => ");
+                    line.push_str(&aux);
+                }
+                None => ctx.count("aux_missing"),
+            }
+        }
+    }
+    let idx = ctx.record(line, out, nontrivial);
     // one failure per distinct signature per op
     fails.dedup_by(|a, b| a.0 == b.0);
     for (sig, what) in fails {
